@@ -116,9 +116,9 @@ package fiber
 // The detection path is the request path with configured case folding applied (and trailing slashes removed).
 //@ macro foldPrefix(dp, p) = len(dp) <= len(p) && forall(k, 0, len(dp), dp[k] == p[k] || dp[k] == lowerb(p[k]))
 
-//@ func (*Constraint).CheckConstraint
-//@   pure
-//@   nosafety bounds
+// CheckConstraint is a deterministic function of the constraint and the value (custom constraints and the
+// regular-expression engine are user/third-party code: assumed pure).
+//@ func (*Constraint).CheckConstraint assumed pure
 //@   defines result == checkOK(c, param, epoch)
 
 //@ func findParamLenForLastSegment
